@@ -87,3 +87,303 @@ def _crash_sig(H):
 def own_value(tok, o):
     """A resolved value must be the value of the future's own token."""
     return o[0] == "val" and o[1][0] == "ok" and o[1][1] == tok and o[1][2] == _h(tok)
+
+
+# ----------------------------------------------------------------------------- outcome helpers
+def is_exc(o, name):
+    return o is not None and o[0] == "exc" and name in o[1]["mro"]
+
+
+def own_outcome(tok, f):
+    """Is the (finished) outcome the task's own, by kind? Returns (ok, why)."""
+    o = f["outcome"]
+    spec = f["spec"]
+    k = spec["kind"]
+    if o is None:
+        return False, "no outcome"
+    if k in ("echo", "gate", "big", "bigarg"):
+        if not own_value(tok, o):
+            return False, f"value is not the task's own: {o}"
+        if k == "big" and o[1][3:] != [spec["n"]]:
+            return False, f"payload length differs: {o}"
+        return True, ""
+    if k == "raise":
+        if o[0] != "exc" or o[1]["type"] != spec["exc"]:
+            return False, f"expected {spec['exc']}, got {o[1]['type'] if o[0] == 'exc' else o}"
+        if list(o[1]["args"]) != list(spec.get("args", [])) if isinstance(o[1]["args"], (list, tuple)) else True:
+            return False, f"exception args differ: {o[1]['args']} vs {spec.get('args')}"
+        if o[1]["cause_type"] != "_RemoteTraceback" or "raiser" not in (o[1]["cause_str"] or ""):
+            return False, f"remote traceback missing as __cause__: {o[1]['cause_type']}"
+        return True, ""
+    if k == "unp_arg":
+        ok = o[0] == "exc" and o[1]["type"] == "PicklingError" and o[1]["cause_type"] == "_RemoteTraceback"
+        return ok, "" if ok else f"expected PicklingError with remote traceback, got {o}"
+    if k == "struct_arg":
+        ok = o[0] == "exc" and o[1]["type"] == "RuntimeError" and o[1]["cause_type"] == "_RemoteTraceback"
+        return ok, "" if ok else f"expected RuntimeError with remote traceback, got {o}"
+    if k == "unp_res":
+        ok = o[0] == "exc" and o[1]["type"] == "ZeroDivisionError" and o[1]["cause_type"] == "_RemoteTraceback"
+        return ok, "" if ok else f"expected the pickling error of the result with remote traceback, got {o}"
+    return False, f"kind {k} has no own outcome (it breaks the pool)"
+
+
+def cancelled_ok(f):
+    return f["state"] in ("CANCELLED", "CANCELLED_AND_NOTIFIED") and f.get("cancel")
+
+
+def exec_counts(H):
+    c = {}
+    for e in H.exec_log:
+        c[e["token"]] = c.get(e["token"], 0) + 1
+    return c
+
+
+def any_broken(H):
+    """Every place a broken-pool error surfaced to the user."""
+    out = []
+    for tok, f in H.futures.items():
+        if is_broken_exc(f["outcome"]):
+            out.append(("future", tok, f["outcome"][1]["type"]))
+    for o in H.ops:
+        oc = o["outcome"]
+        if oc and oc[0] == "raise" and "BrokenProcessPool" in oc[1]["mro"]:
+            out.append(("op", o["thread"], o["op"][0], oc[1]["type"]))
+    return out
+
+
+def probe_outcomes(H):
+    return [o for o in H.ops if o["op"][0] == "probe"]
+
+
+# ----------------------------------------------------------------------------- C02
+def c02(H):
+    v = []
+    if H.verdict != "quiescent":
+        return liveness(H) if H.verdict == "livelock" else v
+    deaths = [s for s in H.death_snapshots if not s["announced"]]
+    if not deaths:
+        return v
+    v += liveness(H)
+    D = deaths[0]
+    kill_shutdown = any(o["op"][0] == "shutdown" and o["op"][2] for o in H.ops)
+    codes = [p["exitcode"] for p in H.procs if p["death"] and p["exitcode"] is not None]
+    for tok, f in H.futures.items():
+        st_at_d = D["states"].get(tok)
+        o = f["outcome"]
+        if st_at_d == "FINISHED" and f["state"] != "FINISHED":
+            v.append({"kind": "outcome_changed", "detail": f"future {tok} was resolved before the death and is {f['state']} now", "where": "snapshot"})
+            continue
+        if f["state"] not in DONE:
+            continue  # reported by liveness
+        if f["state"] != "FINISHED":
+            continue  # cancelled
+        ok, why = own_outcome(tok, f)
+        if ok:
+            continue
+        if is_broken_exc(o):
+            if o[1]["type"] == "TerminatedWorkerError" and codes and not any(f"({c})" in o[1]["str"] for c in codes):
+                v.append({"kind": "exit_code_not_named", "detail": f"future {tok}: TerminatedWorkerError does not name any "
+                          f"exit code of the dead workers {codes}: {o[1]['str'][-300:]}", "where": "message"})
+            continue
+        if kill_shutdown and is_exc(o, "ShutdownExecutorError"):
+            continue
+        if f["spec"]["kind"] in ("unl_arg", "unl_res", "die"):
+            v.append({"kind": "not_broken", "detail": f"future {tok} ({f['spec']['kind']}) ended with {o} instead of a broken-pool error", "where": f["spec"]["kind"]})
+            continue
+        v.append({"kind": "fabricated_or_wrong_outcome", "detail": f"future {tok} ({f['spec']['kind']}) unresolved at the "
+                  f"death ended with {o}: {why}", "where": f["spec"]["kind"]})
+    # later submit raises the broken-pool error
+    released_before = any((o["op"][0] in ("shutdown", "del", "exit")) and o["start"] <= D["step"] for o in H.ops)
+    for pr in probe_outcomes(H):
+        oc = pr["outcome"]
+        if oc is None or pr["start"] <= D["step"] or H.case["config"]["executor"] != "plain":
+            continue   # (reusable: the probing thread may hold a newer instance than the one that broke)
+        if oc[0] == "ok" and oc[1] != "skipped":
+            v.append({"kind": "submit_accepted_after_death", "detail": f"a submit() issued after the pool had an abrupt "
+                      f"worker death (pid {D['pid']}) was accepted: {oc}", "where": "probe"})
+        elif oc[0] == "raise" and not released_before and "BrokenProcessPool" not in oc[1]["mro"] \
+                and not any(o["op"][0] in ("shutdown", "del", "exit") for o in H.ops):
+            v.append({"kind": "submit_wrong_error", "detail": f"later submit raised {oc[1]['type']} instead of the broken-pool error", "where": "probe"})
+    # all workers killed and reaped
+    if not v:
+        mine = [p for p in H.procs if p["spawn_step"] <= D["step"]]   # a later get_reusable_executor() builds a new pool
+        alive = [p["pid"] for p in mine if p["alive"]]
+        unj = [p["pid"] for p in mine if not p["alive"] and not p["joined"]]
+        if alive or unj:
+            v.append({"kind": "workers_not_reaped", "detail": f"after the pool broke: alive={alive} dead-but-never-joined={unj}",
+                      "where": "alive" if alive else "unjoined"})
+    return v
+
+
+# ----------------------------------------------------------------------------- C03
+def expected_map(a):
+    its = [list(range(100 * j, 100 * j + n)) for j, n in enumerate(a["lens"])]
+    out = []
+    for args in zip(*its):
+        x = list(args) + [0] * (3 - len(args))
+        out.append(["sum"] + x)
+    return out
+
+
+def c03(H):
+    v = []
+    if H.verdict != "quiescent":
+        return v
+    cnt = exec_counts(H)
+    for tok, f in H.futures.items():
+        if f["state"] == "FINISHED" and f["outcome"][0] == "val" and not own_value(tok, f["outcome"]):
+            v.append({"kind": "wrong_value", "detail": f"future {tok} holds {f['outcome']}", "where": "value"})
+        if cnt.get(tok, 0) > 1:
+            v.append({"kind": "executed_twice", "detail": f"task {tok} executed {cnt[tok]} times: "
+                      f"{[e for e in H.exec_log if e['token'] == tok]}", "where": "exec"})
+        if f.get("cancel") and cnt.get(tok, 0) > 0:
+            v.append({"kind": "cancelled_but_executed", "detail": f"cancel() returned True for {tok} but its body ran", "where": "cancel"})
+        if f.get("cancel") and f["state"] not in ("CANCELLED", "CANCELLED_AND_NOTIFIED"):
+            v.append({"kind": "cancelled_but_resolved", "detail": f"cancel() returned True for {tok}, state {f['state']}", "where": "cancel"})
+    calls = {}
+    for c in H.map_calls:
+        calls[tuple(c)] = calls.get(tuple(c), 0) + 1
+    for m in H.maps:
+        if m["out"] is None:
+            continue
+        exp = expected_map(m["args"])
+        if m["out"] != exp:
+            v.append({"kind": "map_differs", "detail": f"map{m['args']} gave {m['out']} expected {exp}", "where": "map"})
+    dup = {k: n for k, n in calls.items() if n > sum(1 for m in H.maps for e in expected_map(m["args"]) if tuple(e[1:]) == k)}
+    if dup:
+        v.append({"kind": "map_body_executed_twice", "detail": f"map bodies executed more often than submitted: {dup}", "where": "map"})
+    return v
+
+
+# ----------------------------------------------------------------------------- C04 / C07 shared: pool never broken
+def no_break(H, what):
+    v = []
+    b = any_broken(H)
+    if b:
+        v.append({"kind": "pool_broken", "detail": f"{what}: broken-pool errors surfaced: {b[:4]}; worker exit codes "
+                  f"{[(p['pid'], p['exitcode']) for p in H.procs]}; child errors {H.child_errors[:2]}", "where": b[0][0]})
+    return v
+
+
+def c04(H):
+    v = []
+    if H.verdict != "quiescent":
+        return liveness(H) if H.verdict == "livelock" else v
+    v += liveness(H)
+    v += no_break(H, "task-level failures must be contained")
+    kill_shutdown = any(o["op"][0] == "shutdown" and o["op"][2] for o in H.ops)
+    for tok, f in H.futures.items():
+        if f["state"] != "FINISHED":
+            continue
+        ok, why = own_outcome(tok, f)
+        if not ok and not is_broken_exc(f["outcome"]) and not (kill_shutdown and is_exc(f["outcome"], "ShutdownExecutorError")):
+            v.append({"kind": "wrong_outcome", "detail": f"future {tok} ({f['spec']['kind']}): {why}", "where": f["spec"]["kind"]})
+    for pr in probe_outcomes(H):
+        oc = pr["outcome"]
+        if oc and oc[0] == "raise" and not any(o["op"][0] in ("shutdown", "exit") for o in H.ops):
+            v.append({"kind": "pool_unusable_after_containment", "detail": f"a fresh submit afterwards failed: {oc[1]['type']}: {oc[1]['str'][:200]}", "where": "probe"})
+    bad = [p for p in H.procs if p["exitcode"] not in (0, None) and not (p["death"] and p["death"].get("by") == "kill_process_tree")]
+    if bad:
+        v.append({"kind": "worker_died", "detail": f"workers ended abnormally with no fault injected: {[(p['pid'], p['exitcode']) for p in bad]}; {H.child_errors[:2]}", "where": "exitcode"})
+    return v
+
+
+# ----------------------------------------------------------------------------- C05
+def c05(H):
+    v = []
+    if H.verdict != "quiescent":
+        return liveness(H) if H.verdict == "livelock" else v
+    v += liveness(H)
+    v += no_break(H, "graceful shutdown")
+    for tok, f in H.futures.items():
+        if f["state"] != "FINISHED" or f["spec"].get("probe"):
+            continue
+        ok, why = own_outcome(tok, f)
+        if not ok:
+            v.append({"kind": "not_drained", "detail": f"future {tok} submitted before the shutdown did not get its own outcome: {why}", "where": f["spec"]["kind"]})
+    if released_all(H) and not v:
+        bad = [(p["pid"], p["exitcode"], p["joined"]) for p in H.procs if p["exitcode"] != 0 or not p["joined"]]
+        if bad:
+            v.append({"kind": "unclean_worker_exit", "detail": f"(pid, exitcode, joined) {bad}", "where": "exit"})
+    done_sd = set()
+    for o in sorted(H.ops, key=lambda o: (o["thread"], o["k"])):
+        if o["op"][0] == "shutdown" and o["outcome"] == ["ok", None]:
+            done_sd.add(o["thread"])
+        o["after_shutdown"] = o["thread"] in done_sd and o["op"][0] == "submit"
+    for o in H.ops:
+        if o["op"][0] == "submit" and o["outcome"] and o["outcome"][0] == "raise" and o.get("after_shutdown"):
+            if o["outcome"][1]["type"] != "ShutdownExecutorError":
+                v.append({"kind": "submit_after_shutdown_wrong_error", "detail": f"{o['outcome'][1]['type']}: {o['outcome'][1]['str'][:200]}", "where": "submit"})
+        if o["op"][0] == "submit" and o["outcome"] and o["outcome"][0] == "ok" and o.get("after_shutdown"):
+            v.append({"kind": "submit_accepted_after_shutdown", "detail": f"{o['op']}", "where": "submit"})
+    return v
+
+
+# ----------------------------------------------------------------------------- C06
+def c06(H):
+    v = []
+    if H.verdict == "livelock":
+        return liveness(H)
+    if H.verdict != "quiescent":
+        return v
+    kills = [o for o in H.ops if (o["op"][0] == "shutdown" and o["op"][2]) or (o["op"][0] == "get" and o["op"][1].get("kill_workers"))]
+    if not kills:
+        return v
+    hung = [o for o in kills if o["outcome"] is None]
+    if hung:
+        v.append({"kind": "kill_shutdown_hangs", "detail": f"{[(o['thread'], o['op']) for o in hung]} never returned although it "
+                  f"must not wait for tasks; blocked: {blocked_summary(H)}; crashes {H.task_crashes}", "where": where_sig(H) + _crash_sig(H)})
+        return v
+    for tok, f in H.futures.items():
+        if f["state"] not in DONE:
+            v.append({"kind": "future_dropped", "detail": f"future {tok} left {f['state']} after the forced shutdown; blocked {blocked_summary(H)}; crashes {H.task_crashes}", "where": where_sig(H) + _crash_sig(H)})
+            continue
+        if f["state"] != "FINISHED":
+            continue
+        o = f["outcome"]
+        if is_exc(o, "ShutdownExecutorError") or is_broken_exc(o):
+            continue
+        ok, why = own_outcome(tok, f)
+        if not ok:
+            v.append({"kind": "wrong_outcome", "detail": f"future {tok}: {why}", "where": f["spec"]["kind"]})
+    if not v and released_all(H):
+        alive = [p["pid"] for p in H.procs if p["alive"]]
+        unj = [p["pid"] for p in H.procs if not p["alive"] and not p["joined"]]
+        if alive or unj:
+            v.append({"kind": "workers_not_reaped", "detail": f"alive={alive} never joined={unj}", "where": "alive" if alive else "unjoined"})
+    return v
+
+
+# ----------------------------------------------------------------------------- C07
+def c07(H):
+    v = []
+    if H.verdict != "quiescent":
+        return liveness(H) if H.verdict == "livelock" else v
+    v += liveness(H)
+    v += no_break(H, "idle-timeout exits must be invisible")
+    cnt = exec_counts(H)
+    for tok, f in H.futures.items():
+        if f["state"] == "FINISHED":
+            ok, why = own_outcome(tok, f)
+            if not ok and not is_broken_exc(f["outcome"]):
+                v.append({"kind": "wrong_outcome", "detail": f"future {tok}: {why}", "where": f["spec"]["kind"]})
+            if cnt.get(tok, 0) != 1 and f["spec"]["kind"] in ("echo", "gate", "big", "bigarg", "raise", "unp_res"):
+                v.append({"kind": "not_exactly_once", "detail": f"task {tok} executed {cnt.get(tok, 0)} times", "where": "exec"})
+    bad = [(p["pid"], p["exitcode"]) for p in H.procs if p["exitcode"] not in (0, None)]
+    if bad:
+        v.append({"kind": "timeout_exit_reported_as_crash", "detail": f"worker exit codes {bad}; {H.child_errors[:2]}", "where": "exitcode"})
+    return v
+
+
+# ----------------------------------------------------------------------------- C08
+def c08(H, bound):
+    v = []
+    for step, nb, nalive in H.concurrency_samples:
+        if nb > bound:
+            v.append({"kind": "too_many_concurrent_bodies", "detail": f"{nb} task bodies executing at step {step}, max_workers bound {bound}", "where": "bodies"})
+            break
+    for step, kind, data in H.events:
+        pass
+    if H.max_alive_workers > bound:
+        v.append({"kind": "too_many_workers", "detail": f"{H.max_alive_workers} worker processes alive at once, bound {bound}", "where": "workers"})
+    return v
